@@ -10,7 +10,7 @@
    every deleted row are removed on both sides, everything else is as before. *)
 From Coq Require Import List ZArith NArith Bool.
 From Model Require Import Cascade.
-From Proofs Require Import CascadeAlg CascadeReach Cascade CascadeTotal CascadeWitness.
+From Proofs Require Import CascadeAlg CascadeReach Cascade CascadeTotal CascadeWitness CascadeOpt CascadeOptTop.
 Import ListNotations.
 Open Scope Z_scope.
 
@@ -243,6 +243,183 @@ Example C12_uncached_now_gone :
     get_found st' (0%N, 1) = false /\ get_found st' (1%N, 1) = false.
 Proof. exact uncached_now_gone. Qed.
 
+
+(* ================================================================== *)
+(* Class options on the dependent classes (sqlmeta.lazyUpdate, sqlmeta.cacheValues) and
+   destroySelf through a Transaction.  The options `os` are a parameter of the schema;
+   `destroyX` is destroySelf over (stored state, queues of the live instances),
+   `destroyL` its stored-state part, `destroy_txn` the call through a Transaction followed
+   by commit (normal return) or rollback (exception). *)
+
+(* the stored state is a function of the stored state alone: nothing that is queued on any
+   instance (and no cacheValues setting) influences what destroySelf does to the database *)
+Theorem C12x_stored_projection :
+  forall os dc g fuel st q p, xproj (destroyX os dc fuel g st q p) = destroyL os dc fuel g st p.
+Proof. exact (@destroyX_proj). Qed.
+
+Theorem C12x_queue_independent :
+  forall os dc g fuel st q q' p,
+    xproj (destroyX os dc fuel g st q p) = xproj (destroyX os dc fuel g st q' p).
+Proof. exact (@destroyX_queue_independent). Qed.
+
+(* whatever the options -- cacheValues on any class, lazyUpdate on any class without a
+   cascade='null' column -- destroySelf is the plain `destroy` all theorems above are about *)
+Theorem C12x_plain_is_destroy :
+  forall os dc g, lazy_nulls os g = false ->
+  forall fuel st q p, xproj (destroyX os dc fuel g st q p) = destroy dc fuel g st p.
+Proof. exact (@destroyX_plain). Qed.
+
+(* the cascade theorems over the extended schema space *)
+Theorem C12x_refines_partial :
+  forall os dc g st q p fuel,
+    lazy_nulls os g = false ->
+    wf_graph g = true -> wf_state st = true ->
+    acyclic_rows g st p ->
+    (restricted g st (closure g st p) = false \/ immediate_refusal g st p = true) ->
+    (fuel > length (all_nodes g st))%nat ->
+    xproj (destroyX os dc fuel g st q p) = destroy_spec dc g st p.
+Proof. exact (@x_refines_partial). Qed.
+
+Theorem C12x_terminates :
+  forall os dc g st q p fuel,
+    lazy_nulls os g = false ->
+    wf_graph g = true -> wf_state st = true -> acyclicb g st p = true ->
+    (fuel > length (all_nodes g st))%nat ->
+    destroyX os dc fuel g st q p <> XOutOfFuel.
+Proof. exact (@x_terminates). Qed.
+
+Theorem C12x_done_is_spec :
+  forall os dc g st q p fuel st' q',
+    lazy_nulls os g = false ->
+    wf_graph g = true -> wf_state st = true -> acyclicb g st p = true ->
+    (fuel > length (all_nodes g st))%nat ->
+    destroyX os dc fuel g st q p = XDone st' q' ->
+    st' = apply dc g (full g (closure g st p)) st.
+Proof. exact (@x_done_is_spec). Qed.
+
+Theorem C12x_gone :
+  forall os dc g st q p fuel st' q',
+    lazy_nulls os g = false ->
+    wf_graph g = true -> wf_state st = true -> acyclicb g st p = true ->
+    (fuel > length (all_nodes g st))%nat ->
+    destroyX os dc fuel g st q p = XDone st' q' ->
+    forall d, In d (closure g st p) -> row_exists st' d = false /\ get_found st' d = false.
+Proof. exact (@x_gone). Qed.
+
+(* the full statement over all options, which the unchanged code does not satisfy *)
+Definition C12x_refines_full : Prop :=
+  forall os dc g st q p fuel,
+    wf_graph g = true -> wf_state st = true -> acyclicb g st p = true ->
+    restricted g st (closure g st p) = false ->
+    (fuel > length (all_nodes g st))%nat ->
+    xproj (destroyX os dc fuel g st q p) = destroy_spec dc g st p.
+
+Theorem C12x_refines_full_refuted : ~ C12x_refines_full.
+Proof. exact (@x_refines_full_refuted). Qed.
+
+(* lazyUpdate dependents, for every schema, population, victim, cache mode and fuel: a row
+   of a lazyUpdate class that survives is stored exactly as it was -- so a cascade='null'
+   reference to the victim is still stored -- while the victim's row is gone *)
+Theorem C12x_lazy_reference_outlives_row :
+  forall os dc g fuel st p st' nz r,
+    lazy_of os nz = true ->
+    destroyL os dc fuel g st p = Done st' ->
+    In r (table st' nz) ->
+    In r (table st nz) /\ row_exists st' p = false.
+Proof. exact (@lazy_reference_outlives_row). Qed.
+
+(* ... also after a refusal: destroySelf never writes a row of a lazyUpdate class *)
+Theorem C12x_lazy_rows_never_written :
+  forall os dc g fuel st p st' nz r,
+    lazy_of os nz = true ->
+    (destroyL os dc fuel g st p = Done st' \/ destroyL os dc fuel g st p = Raised st') ->
+    In r (table st' nz) -> In r (table st nz).
+Proof. exact (@lazy_rows_never_written). Qed.
+
+(* witnesses: the NULL is only queued (cache=True), writing the queue afterwards reaches the
+   specified state; it is lost with the instance (cache=False, nobody holds the dependent) *)
+Theorem C12x_lazy_null_refuted :
+  destroyX lz1 true 10 g_lazy (st_lazy []) [] (0%N, 1)
+    = XDone (mkst [(0%N, []); (1%N, [rw 1 [Some 1]])] [] []) [((1%N, 1), [Some None])] /\
+  destroy_spec true g_lazy (st_lazy []) (0%N, 1) = Done (mkst [(0%N, []); (1%N, [rw 1 [None]])] [] []) /\
+  flush [((1%N, 1), [Some None])] (mkst [(0%N, []); (1%N, [rw 1 [Some 1]])] [] [])
+    = mkst [(0%N, []); (1%N, [rw 1 [None]])] [] [].
+Proof. exact lazy_null_witness. Qed.
+
+Theorem C12x_lazy_null_lost_refuted :
+  destroyX lz1 false 10 g_lazy (st_lazy []) [] (0%N, 1)
+    = XDone (mkst [(0%N, []); (1%N, [rw 1 [Some 1]])] [] []) [].
+Proof. exact lazy_null_lost_witness. Qed.
+
+(* a row of a lazyUpdate class referencing the victim only through its 'null' column is
+   deleted although it is not in the closure *)
+Theorem C12x_lazy_delete_refuted :
+  closure g_lazydel st_lazydel (0%N, 1) = [(0%N, 1)] /\
+  destroyX lz1 true 10 g_lazydel st_lazydel [] (0%N, 1) = XDone (mkst [(0%N, []); (1%N, [])] [] []) [] /\
+  destroy true 10 g_lazydel st_lazydel (0%N, 1) = Done (mkst [(0%N, []); (1%N, [rw 1 [None; None]])] [] []).
+Proof. exact lazy_delete_witness. Qed.
+
+(* through a Transaction (victim fetched through it, dependents cached on the class
+   connection): a refusal followed by rollback leaves everything as it was *)
+Theorem C12x_txn_refusal_clean :
+  forall os dc fuel g st p st', destroy_txn os dc fuel g st p = Raised st' -> st' = st.
+Proof. exact (@txn_refusal_clean). Qed.
+
+(* after the commit the stored tables are those of the specification *)
+Theorem C12x_txn_done_is_spec :
+  forall os dc g st p fuel st',
+    lazy_nulls os g = false ->
+    wf_graph g = true -> wf_state st = true -> acyclicb g st p = true ->
+    (fuel > length (all_nodes g st))%nat ->
+    destroy_txn os dc fuel g st p = Done st' ->
+    s_tabs st' = s_tabs (apply dc g (full g (closure g st p)) st) /\
+    s_links st' = s_links (apply dc g (full g (closure g st p)) st).
+Proof. exact (@x_txn_done_is_spec). Qed.
+
+(* on a caching parent connection every row that is gone after the commit -- whatever the
+   options, cyclic or not -- is unreachable by id through the parent ... *)
+Theorem C12x_txn_gone_cached :
+  forall os fuel g st p st' d,
+    destroy_txn os true fuel g st p = Done st' ->
+    row_exists st' d = false -> get_found st' d = false.
+Proof. exact (@txn_gone_cached). Qed.
+
+(* ... in particular every row of the closure *)
+Theorem C12x_txn_gone_partial :
+  forall os g st p fuel st',
+    lazy_nulls os g = false ->
+    wf_graph g = true -> wf_state st = true -> acyclicb g st p = true ->
+    (fuel > length (all_nodes g st))%nat ->
+    destroy_txn os true fuel g st p = Done st' ->
+    forall d, In d (closure g st p) -> row_exists st' d = false /\ get_found st' d = false.
+Proof. exact (@x_txn_gone). Qed.
+
+(* the same for every cache mode is refuted: a cache=False parent still hands out the held
+   instance of the destroyed row after the commit *)
+Definition C12x_txn_gone_full : Prop :=
+  forall os dc fuel g st p st' d,
+    destroy_txn os dc fuel g st p = Done st' ->
+    row_exists st' d = false -> get_found st' d = false.
+Theorem C12x_txn_uncached_refuted :
+  exists st', destroy_txn [] false 10 [cl 0 [] []] (mkst [(0%N, [rw 1 []])] [] [(0%N, 1)]) (0%N, 1) = Done st' /\
+              row_exists st' (0%N, 1) = false /\ get_found st' (0%N, 1) = true.
+Proof. exact txn_uncached_witness. Qed.
+
+(* non-vacuity: a schema with a lazyUpdate class (no 'null' column), a cacheValues=False class and a
+   queued assignment meets the hypotheses of the guarded theorems and does something *)
+Example C12x_options_nonvacuous :
+  lazy_nulls os_nv g_nv = false /\ wf_graph g_nv = true /\ wf_state st_nv = true /\
+  acyclicb g_nv st_nv (0%N, 1) = true /\ restricted g_nv st_nv (closure g_nv st_nv (0%N, 1)) = false /\
+  destroyX os_nv false 10 g_nv st_nv [((1%N, 2), [Some (Some 1); None])] (0%N, 1)
+    = XDone (mkst [(0%N, [rw 2 []]); (1%N, [rw 2 [Some 2; None]]);
+                   (2%N, [rw 1 [None; None]; rw 2 [Some 2; Some 2]])] [] [(1%N, 2)])
+            [((1%N, 2), [Some (Some 1); None])].
+Proof. exact nonvacuous_options. Qed.
+Example C12x_lazy_kept_nonvacuous :
+  lazy_of lz1 1%N = true /\
+  exists st', destroyL lz1 true 10 g_lazy (st_lazy []) (0%N, 1) = Done st' /\ In (rw 1 [Some 1]) (table st' 1%N).
+Proof. exact nonvacuous_lazy_kept. Qed.
+
 Print Assumptions C12_refines_full_refuted.
 Print Assumptions C12_refines_partial.
 Print Assumptions C12_refines_guard.
@@ -264,3 +441,21 @@ Print Assumptions C12_partial_cascade_refuted.
 Print Assumptions C12_partial_links_refuted.
 Print Assumptions C12_cycle_refuted.
 Print Assumptions C12_order_dependent_refuted.
+Print Assumptions C12x_stored_projection.
+Print Assumptions C12x_queue_independent.
+Print Assumptions C12x_plain_is_destroy.
+Print Assumptions C12x_refines_partial.
+Print Assumptions C12x_terminates.
+Print Assumptions C12x_done_is_spec.
+Print Assumptions C12x_gone.
+Print Assumptions C12x_refines_full_refuted.
+Print Assumptions C12x_lazy_reference_outlives_row.
+Print Assumptions C12x_lazy_rows_never_written.
+Print Assumptions C12x_lazy_null_refuted.
+Print Assumptions C12x_lazy_null_lost_refuted.
+Print Assumptions C12x_lazy_delete_refuted.
+Print Assumptions C12x_txn_refusal_clean.
+Print Assumptions C12x_txn_done_is_spec.
+Print Assumptions C12x_txn_gone_cached.
+Print Assumptions C12x_txn_gone_partial.
+Print Assumptions C12x_txn_uncached_refuted.
